@@ -460,6 +460,31 @@ class C10:
                     ctx.count("cuts")
                     if g != "ERR unexpectedEOF":
                         ctx.violate("a proper prefix of a valid pickle does not give (nil, io.ErrUnexpectedEOF)", line, "ERR unexpectedEOF", g)
+        # a cut inside a LATER pickle of a stream: the Decoder has decoded pickles before, the rule is the same - io.EOF only
+        # between pickles, io.ErrUnexpectedEOF once an opcode of the next pickle was read
+        valid = [(cfg, data) for (cfg, data, k), g in zip(meta, go)
+                 if k is None and g.startswith("OK ") and g.split(" ")[1] == str(len(data)) and 2 <= len(data) <= 300]
+        rng.shuffle(valid)
+        slines, smeta = [], []
+        for (cfg, a), (_, b) in zip(valid[: ctx.scale(150, 2000)], valid[1:]):
+            for k in sorted({0, 1, len(b) // 2, len(b) - 1}):
+                slines.append(f"decs {cfg} - {hexs(a + b[:k])}")
+                smeta.append((a, b, k, 1))
+                slines.append(f"decs {cfg} - {hexs(a + a + b[:k])}")
+                smeta.append((a, b, k, 2))
+        sgo, slean = run_both(slines)
+        memo_ops = (b"h", b"j", b"g", b"\x94")
+        for line, (a, b, k, nlead), g, l in zip(slines, smeta, sgo, slean):
+            ctx.evaluations += 1
+            ctx.tie(line[:4000], g, l)
+            parts = g.split(" | ")
+            ctx.count("stream-cut:" + ("between-pickles" if k == 0 else "inside-a-pickle"))
+            if any(op in a or op in b for op in memo_ops):
+                continue        # memo fetches: what an earlier pickle memoized may change what a later one does before the cut (K7)
+            want = "ERR eof" if k == 0 else "ERR unexpectedEOF"
+            if len(parts) != nlead + 1 or not all(x.startswith("OK ") for x in parts[:-1]) or not parts[-1].startswith(want):
+                ctx.violate("a cut in a later pickle of a stream does not give io.ErrUnexpectedEOF (io.EOF between pickles)", line[:3000],
+                            "OK … | " * nlead + want, g[:300])
         for i in range(0, len(lines), max(1, len(lines) // 8)):
             ctx.sample(lines[i][:300] + " -> " + go[i][:200])
 
@@ -708,6 +733,24 @@ class C11:
             for f in fulls:
                 streams.append([f, e])
                 streams.append([f, e, f, e])
+        # classes whose module / name pairs differ only in where the boundary lies ("os.path" "join" / "os" "path.join"), in every
+        # spelling (GLOBAL text, STACK_GLOBAL, as the callable of a call): what one pickle named must not be handed to the next
+        names = [(b"os.path", b"join"), (b"os", b"path.join"), (b"a", b"b.c"), (b"a.b", b"c"), (b"a b", b"c"), (b"a", b"b c"), (b"", b"a.b"),
+                 (b"a.b", b""), (b"m", b"n"), (b"m.", b"n"), (b"m", b".n"), (b"m.n", b"m.n"), (b"m", b"n.m.n")]
+        gl = []
+        for m, n in names:
+            gl += [b"c" + m + b"\n" + n + b"\n.", b"\x80\x04\x8c" + bytes([len(m)]) + m + b"\x8c" + bytes([len(n)]) + n + b"\x93.",
+                   b"c" + m + b"\n" + n + b"\n)R.", b"(c" + m + b"\n" + n + b"\nK\x01d."]
+        streams += [[a, b] for a in gl for b in gl if a != b and (ctx.thorough or rng.random() < 0.3)]
+        # bytes / bytearray objects as CPython writes them at every protocol (bytearray(text, 'latin-1'), _codecs.encode(text, 'latin1'),
+        # bytearray(bytes), BINBYTES, BYTEARRAY8), long ones before short ones: a buffer one pickle's value was built in is not the next one's
+        bobjs = [bytearray(b"hello world"), bytearray(b"ABCDE"), bytearray(), b"bytes-\xff-payload", b"xy", bytearray(b"\xe9\xff" * 4),
+                 [bytearray(b"first"), bytearray(b"2nd")], bytearray(b"z" * 300), b"\x80" * 40]
+        bps = [_pickle.dumps(o, pr) for o in bobjs for pr in range(6)]
+        # ... and as Python 2.7 / Python 3 before 3.8 write a bytearray: bytearray(text, 'latin-1')
+        bps += [P.py2_bytearray_pickle(bytes(o), pr, c) for o in bobjs if isinstance(o, bytearray) for pr in (0, 1, 2) for c in (False, True)]
+        for _ in range(ctx.scale(400, 5000)):
+            streams.append([rng.choice(bps) for _ in range(rng.randint(2, 4))])
         for ps in streams:
             cfg = rng.choice(CFGS)
             lines.append(f"decsp {cfg} - {hexs(b''.join(ps))}")
@@ -848,9 +891,14 @@ class C14:
         import pickle as _pickle
         directed += P.sloppy_text_programs() + P.magic_prefix_programs()
         directed += [_pickle.dumps(o, pr) for o in (bytearray(b"abc"), b"", [bytearray(b"x"), b"y"], {"k": bytearray()}) for pr in (2, 3, 4, 5)]
+        # lists extended through two references (finding K1's subject): WHAT they hold is not compared with the model here, only that it is
+        # the same under every schedule (the capacity of a Go slice must not depend on how much input happened to be buffered)
+        k1_progs = set(P.both_ends_append_programs())
+        directed += sorted(k1_progs)
         ins += directed
         force_all = set(directed)
         flat, sched_lines, meta = [], [], []
+        k1_idx = set()
         for data in ins:
             data = data[:120000]
             cfg = rng.choice(CFGS)
@@ -867,6 +915,8 @@ class C14:
                 cuts = sorted(rng.randint(0, 50) for _ in range(rng.randint(2, 8)))
                 scheds.append(("e" if rng.random() < 0.5 else "") + ",".join(str(c) for c in cuts) + f",{rng.choice([1, 2, 5, 4096])}*")
             flat.append(f"decs {cfg} - {hexs(data)}")
+            if data in k1_progs:
+                k1_idx.add(len(flat) - 1)
             for s in scheds:
                 sched_lines.append(f"decr {cfg} {s} {hexs(data)}")
                 meta.append((len(flat) - 1, cfg, s, data))
@@ -885,8 +935,11 @@ class C14:
                 if x.startswith("ERR"):
                     break
             return " | ".join(out)
-        for line, g, l in zip(flat, goflat, lean):
+        for fi, (line, g, l) in enumerate(zip(flat, goflat, lean)):
             ctx.evaluations += 1
+            if fi in k1_idx:
+                ctx.count("K1-territory program: schedules compared on the implementation only")
+                continue
             ctx.tie(line, upto_error(g), upto_error(l))
         for line, (fi, cfg, s, data), g in zip(sched_lines, meta, go):
             ctx.evaluations += 1
@@ -894,7 +947,7 @@ class C14:
             ctx.nontrivial((cfg, s, data))
             want_model = upto_error(strip(lean[fi]))
             want_impl = strip(goflat[fi])
-            if "UNMODELLED" in want_model or "TOOBIG" in want_model or "TOOBIG" in g:
+            if "UNMODELLED" in want_model or "TOOBIG" in want_model or "TOOBIG" in g or data in k1_progs:
                 ctx.unmodelled += 1
             elif upto_error(g) != want_model:
                 ctx.disagree(line[:3000], g, want_model, "chunked implementation vs model on flat input")
@@ -1462,12 +1515,33 @@ def go_pyquote(s):
     return bytes(out)
 
 
+def py2_string_lines(payloads):
+    """The STRING lines Python 2's pickler writes for these byte strings (protocol 0, memo PUT stripped), or None without python2."""
+    import subprocess
+    prog = ("import sys, pickle\n"
+            "for l in sys.stdin:\n"
+            "    s = l.strip().decode('hex')\n"
+            "    d = pickle.dumps(s, 0)\n"
+            "    i = d.rindex('\\np')\n"
+            "    sys.stdout.write(d[:i + 1].encode('hex') + '\\n')\n")
+    try:
+        r = subprocess.run(["python2", "-c", prog], input="".join(s.hex() + "\n" for s in payloads).encode(), capture_output=True,
+                           env=dict(os.environ, PYENV_VERSION="2.7.18"), timeout=600)
+    except (OSError, subprocess.TimeoutExpired):
+        return None
+    out = r.stdout.decode().split("\n")[:-1]
+    if r.returncode != 0 or len(out) != len(payloads):
+        return None
+    return [bytes.fromhex(x) for x in out]
+
+
 class C19:
     prop = "C19"
-    lean_module = "Ogorek.Props.C19"
+    lean_module = "Ogorek.Props.C19U"
     theorems = ["Ogorek.parseDecimal_fmtInt", "Ogorek.decodeLong_twos", "Ogorek.C19_INT", "Ogorek.C19_LONG", "Ogorek.C19_BININT1",
                 "Ogorek.C19_BININT2", "Ogorek.C19_BININT", "Ogorek.C19_LONG1", "Ogorek.C19_LONG1_zero", "Ogorek.C19_counted",
-                "Ogorek.C19_helpers", "Ogorek.C19_key"]
+                "Ogorek.C19_helpers", "Ogorek.C19_key", "Ogorek.C19_UNICODE_cpython", "Ogorek.C19_UNICODE_cpython_asString",
+                "Ogorek.C19_STRING_py2repr", "Ogorek.py2repr_body_inv", "Ogorek.cpRue_inv", "Ogorek.cpRue_no_lf"]
     trusted_base = TB_COMMON
     level_text = ("Lean theorems, for EVERY integer n and every opcode form able to carry it: INT text, LONG text, BININT1, BININT2, BININT, "
                   "LONG1 of every width 1..255 into which n fits (decodeLong proved to be two's complement for all widths — the F1 "
@@ -1476,7 +1550,13 @@ class C19:
                   "documented kind and AsString/AsBytes accept exactly unicode+py2-str / bytes+py2-str in both StrictUnicode modes "
                   "(C19_counted, C19_helpers); int64 and *big.Int forms of one integer are equal Dict keys with equal hash (C19_key). "
                   "The text forms STRING / UNICODE as the encoder writes them are covered by the codec inverse theorems of C03 (pyquote_inv, rue_inv); "
-                  "PARTIAL: STRING / UNICODE lines written by other picklers (CPython repr quoting) are tied by correspondence here.")
+                  "The text forms as OTHER picklers write them: for EVERY text, the UNICODE line CPython's pickler writes (its own "
+                  "raw_unicode_escape: backslash, LF, CR, NUL, 0x1a as \\u00XX, U+0100.. as \\uXXXX / \\UXXXXXXXX, Latin-1 as single bytes; model "
+                  "cpRue, tied byte for byte to pickle.dumps in C02) is read back as exactly that text (C19_UNICODE_cpython, from cpRue_inv / "
+                  "cpRue_no_lf); for EVERY byte string, the STRING line Python 2's pickler writes (repr: quote choice, \\\\ \\' \\t \\n \\r, \\xNN; "
+                  "model py2repr, tied here to Python 2's own pickle.dumps where python2 is installed and to repr(bytes) of Python 3) is read "
+                  "back as exactly those bytes (C19_STRING_py2repr). Lines in yet other spellings (hand-written escapes, Go-style quoting) are "
+                  "tied by correspondence and compared with Python's codecs.")
     level_note = "trusted: Lean kernel + standard axioms; decoder parse layer and typeconv model; strconv.ParseInt/big.SetString as `[+-]?[0-9]+`"
     technique = "Lean 4 proof (decimal and two's-complement round-trip lemmas, per-opcode evaluation) + differential correspondence over integers x forms"
     rule = ("integers: quick: -300..300, boundary lattice +-2^k+d (k<=70, and k up to 2031 for LONG1 widths 1..255), random 64-bit; "
@@ -1541,6 +1621,25 @@ class C19:
             for su in "01":
                 lines.append(f"conv {rng.choice('01')}{su} {hexs(prog)}")
                 meta.append(("uniline", "UNICODE-escapes", want))
+        # two integers in one pickle, each in every form: what the reading of one argument leaves behind (a scratch buffer, a cached
+        # width) must not reach the next - in one pickle and across two Decode calls on one Decoder
+        firsts = [70000, -1, 2 ** 31 - 1, -2 ** 31, 0x01020304, 255, 65535, 2 ** 63 - 1, -2 ** 63, 2 ** 64 + 0x0a0b0c0d, -(2 ** 70) - 3]
+        seconds = [300, 0, 255, 65535, 7, -5, 0x0102, 2 ** 40 + 1]
+        for n1 in firsts:
+            for n2 in (seconds if ctx.thorough else rng.sample(seconds, 4)):
+                for na, fa in int_forms(n1):
+                    for nb, fb in int_forms(n2):
+                        lines.append(f"dec {rng.choice(CFGS)} - {hexs(b'(' + fa + fb + b't.')}")
+                        meta.append(("int-pair", f"{na}/{nb}", (n1, n2)))
+                        if rng.random() < 0.25:
+                            lines.append(f"decs {rng.choice(CFGS)} - {hexs(fa + b'.' + fb + b'.')}")
+                            meta.append(("int-stream", f"{na}/{nb}", (n1, n2)))
+        # likewise two payloads of different length, each in every counted / text form
+        for s1, s2 in ((b"abcdefgh", b"xy"), (b"x" * 300, b"\xe9"), (b"", b"q"), (b"\xff\xfe", b""), (b"0123456789" * 30, b"ab\ncd")):
+            for na, fa, ka in payload_forms(s1):
+                for nb, fb, kb in payload_forms(s2):
+                    lines.append(f"dec {rng.choice(CFGS)} - {hexs(b'(' + fa + fb + b't.')}")
+                    meta.append(("payload-pair", f"{na}/{nb}", (s1, s2)))
         # one integer, two representations, one Dict entry
         for n in rng.sample(sorted(i for i in ints if -2 ** 200 < i < 2 ** 200), ctx.scale(150, 2000)):
             fs = int_forms(n)
@@ -1570,6 +1669,20 @@ class C19:
                 if info is not None and g != f"I:ERR S:{hexs(info)} B:ERR":
                     ctx.violate("AsString on the value decoded from a UNICODE line with backslash escapes", line[:400],
                                 f"I:ERR S:{hexs(info)} B:ERR", g)
+            elif kind == "int-pair":
+                m = re.match(r"OK t\( [IL](-?\d+) [IL](-?\d+) \) \d+$", g)
+                if not m or (int(m.group(1)), int(m.group(2))) != info:
+                    ctx.violate(f"two integers in one pickle ({name} forms) are not both delivered", line[:400], f"t( {info[0]} {info[1]} )", g[:300])
+            elif kind == "int-stream":
+                m = re.match(r"OK [IL](-?\d+) \d+ \| OK [IL](-?\d+) \d+ \| ERR eof$", g)
+                if not m or (int(m.group(1)), int(m.group(2))) != info:
+                    ctx.violate(f"two integers in two pickles of one stream ({name} forms) are not both delivered", line[:400],
+                                f"{info[0]} | {info[1]}", g[:300])
+            elif kind == "payload-pair":
+                m = re.match(r"OK t\( [SYBA](\S+) [SYBA](\S+) \) \d+$", g)
+                if not m or (m.group(1), m.group(2)) != (hexs(info[0]), hexs(info[1])):
+                    ctx.violate(f"two payloads in one pickle ({name} forms) are not both delivered unchanged", line[:400],
+                                f"{hexs(info[0])[:80]} {hexs(info[1])[:80]}", g[:300])
             elif kind == "empty-after":
                 m = re.match(r"OK t\( \S+ (\S+) (\S+) \) \d+$", g)
                 if not m or m.group(1)[1:] != "-" or m.group(2)[1:] != "-":
@@ -1579,5 +1692,22 @@ class C19:
                 m = re.match(r"OK d\( (\S+) I8 \) \d+$", g)
                 if not m:
                     ctx.violate("two representations of one integer did not address the same Dict entry", line[:400], "OK d( <n> I8 )", g)
+        # the model of Python 2's repr (what C19_STRING_py2repr quantifies over) against Python: repr(bytes) of this interpreter and,
+        # where a Python 2 is installed, the STRING line its pickler really writes
+        rs = [s for s in payloads if len(s) <= 9000]
+        got = C.run_sharded(C.run_lean, [f"py2repr {hexs(s)}" for s in rs])
+        real2 = py2_string_lines(rs)
+        ctx.count("py2repr:python2-available" if real2 is not None else "py2repr:python2-absent")
+        for i, (s, l) in enumerate(zip(rs, got)):
+            ctx.evaluations += 1
+            want = "OK " + hexs(P.py_repr_bytes(s))
+            ctx.count("py2repr:model-vs-repr")
+            if l != want:
+                ctx.disagree(f"py2repr {hexs(s)[:300]}", "repr(bytes): " + want[:600], l[:600], "py2repr model")
+            if real2 is not None:
+                ctx.count("py2repr:model-vs-python2-pickle")
+                if real2[i] != b"S" + P.py_repr_bytes(s) + b"\n":
+                    ctx.disagree(f"py2repr {hexs(s)[:300]}", "python2 pickle.dumps: " + hexs(real2[i])[:600],
+                                 hexs(b"S" + P.py_repr_bytes(s) + b"\n")[:600], "py2repr model")
         for i in range(0, len(lines), max(1, len(lines) // 8)):
             ctx.sample(lines[i][:200] + " -> " + go[i][:120])
